@@ -579,7 +579,7 @@ def pairs_oracle(ctx, impl):
             bad = ("trajectory", "poses of kept bodies / sites deviate by %g (> %g) within 200 steps" % (dev, TOL_KIND.get(kind, TOL_TRAJ)))
         elif kind in EXACT_STATIC and static != "same":
             bad = ("static", "compiled arrays differ although the rewriting is exact: " + static[:200])
-        elif nmatched == 0 and kind not in ("defaults",):
+        elif nmatched == 0 and nqb > 0:     # jointed bodies are never fused / discarded: their names must be found
             bad = ("nothing-compared", "no body name of B exists in A")
         if bad:
             nfail += 1
